@@ -206,7 +206,11 @@ BlockValues(W, src, req, n) ==
               ELSE { LVal(AlgoPresent(s.l, src.ext, {}), n) :        \* no replica-label removal on this path
                        s \in SelectStored(W, src, ms2, req.mint, req.maxt) } \ {""}
 BucketValues(W, blocks, req, n) == UNION { BlockValues(W, b, req, n) : b \in blocks }
-ProxyValues(W, head, blocks, req, n) == TsdbValues(W, head, req, n) \cup BucketValues(W, blocks, req, n)
+(* the proxy prunes stores by their advertised time range: the TSDB store advertises           *)
+(* [first sample, +infinity), so it is not asked when the request ends before its first sample *)
+ProxyAsksHead(W, head, req) == head.series # {} /\ req.maxt >= SrcMinT(W, head)
+ProxyValues(W, head, blocks, req, n) ==
+    (IF ProxyAsksHead(W, head, req) THEN TsdbValues(W, head, req, n) ELSE {}) \cup BucketValues(W, blocks, req, n)
 
 (* ---- one entry point per store kind ---- *)
 AlgoSeries(kind, W, head, blocks, req) ==
